@@ -237,8 +237,9 @@ func TestC35(t *testing.T) {
 			// staked for the chain in the state of the session's first block (sbh): a change in a block <= sbh is part
 			// of the session, a change in a later block is not.
 			sbh := ((stop-1)/bps)*bps + 1
-			join21 := rapid.SampledFrom([]string{"none", "none", "before-session-start", "before-session-start", "before-session-start-and-leaves-mid-session", "before-session-start-and-leaves-mid-session",
-				"mid-session", "mid-session", "mid-session", "mid-session", "previous-session-boundary", "previous-session-boundary", "previous-session-jail"}).Draw(rt, "selfJoins0021")
+			// (rapid draws small indices and the last one more often than the middle: the order is part of the weighting)
+			join21 := rapid.SampledFrom([]string{"mid-session", "previous-session-boundary", "mid-session", "before-session-start", "before-session-start-and-leaves-mid-session", "none",
+				"mid-session", "previous-session-boundary", "before-session-start", "before-session-start-and-leaves-mid-session", "none", "mid-session", "previous-session-jail"}).Draw(rt, "selfJoins0021")
 			join01 := rapid.SampledFrom([]string{"none", "none", "new-stake", "edit-stake"}).Draw(rt, "joinerJoins0001")
 			leaves21 := join21 == "before-session-start-and-leaves-mid-session"
 			if (join21 == "mid-session" || leaves21 || join01 != "none") && stop == sbh {
